@@ -355,11 +355,14 @@ class Model:
             has_info = layer == "F"  # only file system sources carry an `uptodate` callable
             fresh = self.cur.get((layer, key)) == ver
             if not self.reload or not has_info or fresh:
-                need = False
+                # "... or, where auto-reload is off or no freshness information exists, what it produced when the
+                # entry was last loaded": the last-loaded answer is admissible there, and so is the current one
+                # (a loader may have partial information, e.g. a choice loader asking its earlier delegates)
+                need = not fresh or cur != (layer, ver)
                 touched = cache.copy()
                 touched.move_to_end(key)
                 outs.append((("ok", body), touched, "hit" if cur == (layer, ver) else "stale-hit"))
-                if fault and self.reload and has_info:
+                if fault and self.reload:
                     # a loader that checks freshness may consult the source; then it fails as
                     # the uncached loader would fail at this moment
                     outs.append((("err", fault), cache, "fault-on-hit"))
@@ -839,6 +842,19 @@ class C14(Prop):
                          f"outcomes {[_act_str(a) for a in acts]} match no single allowed sequence "
                          f"{[ch[0] for ch in chains]}")
                 break  # model and loader state have diverged
+
+            # "evicts least-recently-used entries first" (and nothing else, and only to make room): the keys now
+            # resident must be those of an admissible model state.  Content alone cannot show an entry thrown
+            # out early when its source is unchanged - it is simply loaded again.
+            resident = set(world.loader.cache._cache.keys()) if hasattr(world.loader.cache, "_cache") else None
+            if resident is not None and mode != "t":
+                keyed = [ch for ch in matched if set(ch[1].keys()) == resident]
+                if not keyed:
+                    fail("lru", f"lru-keys:{kind}",
+                         f"{modename}: resident keys {sorted(resident)} after the step; the LRU model admits "
+                         f"{sorted({tuple(sorted(ch[1].keys())) for ch in matched})}")
+                    break
+                matched = keyed
 
             # model state: the candidates consistent with the observation
             uniq: dict[tuple[Any, ...], Any] = {}
